@@ -64,11 +64,13 @@ def same(obs, exp):
         if obs["res"] in ("err:CircuitUnsatisfied", "err:InvalidCircuitSize"):
             return True
         return obs["res"] == "ok" and obs["verify"] == "ok" and obs["ret"] == exp["ret"]
-    if obs["res"] != exp["res"]:
-        return False
     if exp["res"] == "ok":
-        return obs["verify"] == "ok" and obs["ret"] == exp["ret"]
-    return True
+        return obs["res"] == "ok" and obs["verify"] == "ok" and obs["ret"] == exp["ret"]
+    if exp["res"] == "err:CircuitUnsatisfied":
+        return obs["res"] == "err:CircuitUnsatisfied"
+    # an entry point must return AN error (and have appended nothing); which variant it
+    # returns is not part of the properties: a different class is recorded as drift
+    return obs["res"].startswith("err:") and obs["res"] != "err:CircuitUnsatisfied"
 
 
 def run_scenarios(ck, sc, site_of=None):
@@ -133,6 +135,9 @@ def run_scenarios(ck, sc, site_of=None):
         if len(ck.samples) < 6 and e["res"] != "ok":
             ck.sample({"gadget": s["g"], "ops": [op.get("op") for op in s["ops"]],
                        "n": s.get("n"), "spec_predicts": e["res"], "observed": o["res"]})
+        if same(o, e) and o["res"] != e["res"] and e["res"] not in ("unsat-or",):
+            ck.extra.setdefault("error_class_drift", []).append(
+                {"component": s["g"], "predicted": e["res"], "observed": o["res"]})
         if not same(o, e):
             key = {"site": s["g"], "predicted": e["res"], "observed": o["res"]}
             if site_of:
